@@ -37,6 +37,7 @@ import XotModel.Lemmas.FspecAllRepl6
 import XotModel.Lemmas.FspecAllFrame2
 import XotModel.Lemmas.FspecStrComposite
 import XotModel.Lemmas.FspecFrameComposite
+import XotModel.Lemmas.FspecFrameReplace
 
 namespace XotModel.Props
 open XotModel XotModel.Spec
@@ -1219,10 +1220,10 @@ example :
                        `remove(n)` (`C05_unwrap_parentless`), so `C05_pair_frame_remove` applies;
     element_wrap(n)    a node whose parent is not the parent of `n` keeps its place - everything inside `n` included
                        (`n` itself gets the wrapper as parent); for a parentless `n` every node that has a parent does.
-  `replace` on forests with adjacent text: `C05_frame_replace` above is under `Forest.Normal`; when the replacing node
-  already stands next to the replaced one the call is `remove` and `C05_pair_frame_remove` applies without `Normal`
-  (`C05_pair_frame_replace_adjacent`); the frame of the specification `specReplace keep` itself needs no `Normal`
-  (`frame_specReplace`), the pair reading `specReplaceP` in the other geometries is not framed here. -/
+  `replace` on forests with adjacent text: `C05_pair_frame_replace` below (every geometry; `C05_frame_replace` above is
+  the same statement under `Forest.Normal`): when the replacing node already stands next to the replaced one the call is
+  `remove` (`C05_pair_frame_replace_adjacent`), otherwise the pair reading `specReplaceP` is framed
+  (`C05_frame_specReplaceP`). -/
 
 theorem C05_frame_specDetachP {f : Forest} {n : Nat} {t : HTree} (inv : f.Inv)
     (hg : f.get? n = some t) {x : Nat} {cx : HTree.Ctx} (hx : f.ctx? x = some cx)
@@ -1301,26 +1302,44 @@ theorem C05_pair_frame_replace_adjacent {f : Forest} {a b : Nat} {A : HTree} (in
   rw [hadj, if_pos rfl]
   exact frame_specRemoveP inv hA hx h1 h3 h4
 
-/-- ⟦partial⟧ The frame of `replace` WITHOUT `Forest.Normal` is proved in the geometry "replacing node already next to the
-    replaced one"; in the other geometries it is proved under `Forest.Normal` (`C05_frame_replace`).  Full statement
-    (goal): the same conclusion from `inv`, `hok` and `h1 … h6` alone.  Missing: the frame of the pair reading
-    `specReplaceP` when the replacing node is cut elsewhere, put in the place of `a` and merged by `mergeNew3`. -/
-theorem C05_pair_frame_replace_partial {f : Forest} {a b q : Nat} {A t : HTree} (inv : f.Inv)
-    (hbound : f.Normal ∨ adjacentTo f a b = true)
+/-- ⟦C05_pair_frame_replace⟧ **The frame of `replace` without `Forest.Normal`**: every forest with the invariant
+    (adjacent text nodes allowed), every geometry.  A node outside the replacing subtree `t` and the replaced subtree
+    `A` whose parent is neither `a`'s parent nor `b`'s old parent and lies in neither subtree keeps its parent, its
+    value and the handles of its left and right siblings.  (Replacing node next to the replaced one: the call is
+    `remove`; otherwise the pair reading `specReplaceP` - cut, put, `mergeLeftAt`, `mergeNew3At` - is framed like a move,
+    Lemmas/FspecFrameReplace.lean.) -/
+theorem C05_pair_frame_replace {f : Forest} {a b q : Nat} {A t : HTree} (inv : f.Inv)
     (hok : (f.replace a b).2 = .ok) (hA : f.get? a = some A) (hb : f.get? b = some t)
     (hq : f.parent? a = some q)
     {x : Nat} {cx : HTree.Ctx} (hx : f.ctx? x = some cx)
     (h1 : cx.parent ≠ q) (h2 : some cx.parent ≠ f.parent? b) (h3 : cx.parent ∉ HTree.handles t)
     (h4 : x ∉ HTree.handles t) (h5 : cx.parent ∉ HTree.handles A) (h6 : x ∉ HTree.handles A) :
-    ∃ cx', (f.replace a b).1.ctx? x = some cx' ∧ cx'.shape = cx.shape := by
-  rcases hbound with norm | hadj
-  · exact C05_frame_replace inv norm hok hA hb hq hx h1 h2 h3 h4 h5
-  · exact C05_pair_frame_replace_adjacent inv hok hadj hA hx (by rw [hq]; exact fun e => h1 (Option.some.inj e)) h5 h6
+    ∃ cx', (f.replace a b).1.ctx? x = some cx' ∧ cx'.shape = cx.shape :=
+  replace_frame_all inv hok hA hb hq hx h1 h2 h3 h4 h5 h6
 
-/-- Non-vacuity of the second alternative on a forest with adjacent text nodes: in `frameWitness` the text `y` (8) stands
-    next to `u` (3); `replace(u, y)` is accepted and `h` (13) keeps its place. -/
+/-- The pair specification itself, replacing node not next to the replaced one. -/
+theorem C05_frame_specReplaceP {f : Forest} {a b q : Nat} {vq : Value} {l : List HTree} {A : HTree}
+    {r : List HTree} {t : HTree} (inv : f.Inv) (ra : ReplArgs f a b q vq l A r t)
+    (hnadj : adjacentTo f a b = false)
+    {x : Nat} {cx : HTree.Ctx} (hx : f.ctx? x = some cx)
+    (h1 : cx.parent ≠ q) (h2 : some cx.parent ≠ f.parent? b) (h3 : cx.parent ∉ HTree.handles t)
+    (h4 : x ∉ HTree.handles t) (h5 : cx.parent ∉ HTree.handles A) :
+    ∃ cx', (specReplaceP a b f).ctx? x = some cx' ∧ cx'.shape = cx.shape :=
+  frame_specReplaceP_far inv ra hnadj hx h1 h2 h3 h4 h5
+
+/-- Non-vacuity on a forest with adjacent text nodes: in `frameWitness` the text `y` (8) stands next to `u` (3);
+    `replace(u, y)` is accepted and `h` (13) keeps its place; `replace(v, r)` (10, 11: the parentless text `r` is merged into
+    `z`) and `replace(u, q)` (3, 14: the text `q` leaves `g`, three-way merge `x q y`) are not adjacent: `k` (6) inside `u`
+    resp. `h` keep their places. -/
 example : adjacentTo frameWitness 3 8 = true ∧ (frameWitness.replace 3 8).2 = .ok ∧
     ((frameWitness.replace 3 8).1.ctx? 13).map HTree.Ctx.shape = some (12, [], .element 3, [14]) ∧
-    (frameWitness.replace 3 8).1.value? 2 = some (.text ['x', 'y']) :=
-  ⟨by decide, by decide, by decide, by decide⟩
+    (frameWitness.replace 3 8).1.value? 2 = some (.text ['x', 'y']) ∧
+    adjacentTo frameWitness 10 11 = false ∧ (frameWitness.replace 10 11).2 = .ok ∧
+    ((frameWitness.replace 10 11).1.ctx? 6).map HTree.Ctx.shape = some (3, [4, 5], .element 6, [7]) ∧
+    ((frameWitness.replace 10 11).1.ctx? 13).map HTree.Ctx.shape = some (12, [], .element 3, [14]) ∧
+    adjacentTo frameWitness 3 11 = false ∧ (frameWitness.replace 3 11).2 = .ok ∧
+    (frameWitness.replace 3 11).1.value? 2 = some (.text ['x', 'r', 'y']) ∧
+    ((frameWitness.replace 3 11).1.ctx? 13).map HTree.Ctx.shape = some (12, [], .element 3, [14]) :=
+  ⟨by decide, by decide, by decide, by decide, by decide, by decide, by decide, by decide, by decide, by decide,
+   by decide, by decide⟩
 end XotModel.Props
